@@ -160,6 +160,11 @@ Definition valid_encb (e : endian) (pos : N) (top : dval -> dval) (b : bytes) (r
   | _ => false
   end.
 
+(* the same decision with one more decidable demand on the decoded value (e.g. [sigs_nest_ok]) *)
+Definition valid_encb_x (extra : dval -> bool) (e : endian) (pos : N) (top : dval -> dval) (b : bytes)
+                        (r : res cerr (dval * N)) : bool :=
+  match r with Ok (v, n) => extra (top v) && valid_encb e pos top b (Ok (v, n)) | _ => false end.
+
 Lemma spec_de_valid_encb e pos top b r :
   spec_de e pos top b r = if valid_encb e pos top b r then B "OK" else B "ERR".
 Proof. destruct r as [[v n]| |]; reflexivity. Qed.
@@ -174,11 +179,6 @@ Proof.
   - intros (((H1 & H2) & H3) & H4). auto.
   - intros (H1 & H2 & H3 & H4). auto.
 Qed.
-
-(* the same decision with one more decidable demand on the decoded value (e.g. [sigs_nest_ok]) *)
-Definition valid_encb_x (extra : dval -> bool) (e : endian) (pos : N) (top : dval -> dval) (b : bytes)
-                        (r : res cerr (dval * N)) : bool :=
-  match r with Ok (v, n) => extra (top v) && valid_encb e pos top b (Ok (v, n)) | _ => false end.
 
 Lemma take_drop (b : bytes) n : b = takeN n b ++ dropN n b.
 Proof. unfold takeN, dropN. symmetry. apply firstn_skipn. Qed.
